@@ -42,7 +42,8 @@ type InlineReport struct {
 	Inlined []string // "caller <- callee" for every replaced call
 	Skipped []string // eligible-looking calls that were left alone, with the reason
 	Rounds  int
-	Failed  string // non-empty when the normalised program did not load and the original one is used
+	Failed  string   // non-empty when the normalised program did not load and the original one is used
+	Dropped []string // helpers removed from the indexes: every call of them was inlined
 }
 
 // Normalize loads dir (with overlay) and inlines calls of non-baseline helpers until none is left (at most 4 rounds).
@@ -84,6 +85,14 @@ func Normalize(dir string, overlay map[string][]byte, baseline map[string]bool) 
 		np.Baseline = baseline
 		p, cur = np, next
 	}
+	// helpers all of whose calls were inlined are dead code now
+	callees := map[string]bool{}
+	for _, l := range rep.Inlined {
+		if i := strings.Index(l, " <- "); i >= 0 {
+			callees[l[i+4:]] = true
+		}
+	}
+	rep.Dropped = p.dropUnused(callees)
 	p.Inline = rep
 	return p, rep, nil
 }
